@@ -334,6 +334,9 @@ impl Ctx {
     {
         let mut remaining = cases;
         let mut attempt = 0u64;
+        // signatures already reported by this call: a further failure with one of them is not
+        // searched for and shrunk again (the search continues behind it)
+        let reported: RefCell<HashSet<String>> = RefCell::new(HashSet::new());
         while remaining > 0 && attempt < 6 {
             let seed = self.sub_seed(&format!("{}#{}", kind, attempt));
             let config = Config {
@@ -391,7 +394,10 @@ impl Ctx {
                                 }
                             }
                             None => {
-                                if self.is_known(&sig) {
+                                if reported.borrow().contains(&sig) {
+                                    self.class("failure-with-a-signature-already-reported-in-this-run");
+                                    Ok(())
+                                } else if self.is_known(&sig) {
                                     if self.known.lookup(&self.prop, &sig).is_some() {
                                         self.report(kind, render, &sig, &detail);
                                     }
@@ -428,6 +434,10 @@ impl Ctx {
                         &sig,
                         &detail,
                     );
+                    reported.borrow_mut().insert(sig.clone());
+                    if let Some(s) = first_sig.borrow().clone() {
+                        reported.borrow_mut().insert(s);
+                    }
                     remaining = remaining.saturating_sub(done.get());
                     attempt += 1;
                 }
